@@ -123,7 +123,13 @@ def utils_batch(case):
     grid = [0, 1, -1, 2, 5, 10, 100, 255, 1023, 1024, 0.5, -0.5, 3.3, 5.0, 1e-3, 1e6, -1e6]
     for _ in range(n):
         mode = r.random()
-        if mode < 0.5:
+        if mode < 0.08:
+            # a narrow source range far from zero (epoch milliseconds, large counters) is still a range
+            a = r.choice([1_700_000_000_000, 2 ** 40, 1e15, -3e12, 16_777_216.0])
+            b = a + r.choice([500, 4, 1, -250, 0.5, 1024])
+            v = a + (b - a) * r.choice([0, 1, 0.5, 0.25, 2])
+            c, d = r.choice(grid), r.choice(grid)
+        elif mode < 0.5:
             v, a, b, c, d = (r.choice(grid) for _ in range(5))
         elif mode < 0.8:
             v, a, b, c, d = (r.uniform(-1000, 1000) for _ in range(5))
@@ -139,7 +145,12 @@ def utils_batch(case):
                 problems.append(("map-zero-span", f"map with zero-width source range raised {type(e).__name__}, not ValueError"))
             checked += 1
             continue
-        got = U.map(v, a, b, c, d)
+        try:
+            got = U.map(v, a, b, c, d)
+        except Exception as e:  # noqa: BLE001
+            problems.append(("map-refused", f"map({v}, {a}, {b}, {c}, {d}) raised {type(e).__name__}: {e} for a source range that is not zero-width"))
+            checked += 1
+            continue
         exact = Fraction(c) + (Fraction(v) - Fraction(a)) / (Fraction(b) - Fraction(a)) * (Fraction(d) - Fraction(c))
         want = float(exact)
         checked += 1
@@ -151,6 +162,8 @@ def utils_batch(case):
         if len(samples) < 2:
             samples.append(f"map({v}, {a}, {b}, {c}, {d}) = {got!r} (exact {want!r})")
         # endpoints
+        if float(a) + (float(b) - float(a)) != float(b):
+            continue   # (the endpoints themselves are not exactly representable next to each other: no exact endpoint law)
         if U.map(a, a, b, c, d) != c:
             problems.append(("map-endpoint", f"map(from_low) = {U.map(a, a, b, c, d)!r} != to_low {c!r}"))
     # sleep
@@ -248,6 +261,25 @@ def sensors_batch(case):
                 prev = s
             if clicks.count(2) != e2:
                 problems.append(("button-edges", f"Button(set_pressed) fired {clicks.count(2)} clicks for {e2} rising edges"))
+            # set_pressed may be called any number of times between two polls: only the level SAMPLED by is_pressed() counts
+            b3 = Button(4, on_click=lambda: clicks.append(3))
+            clicks.clear()
+            e3, prev3, level, hist = 0, False, False, []
+            for _ in range(r.randint(4, 14)):
+                if r.random() < 0.6:
+                    level = r.random() < 0.5
+                    b3.set_pressed(level)
+                    hist.append(int(level))
+                else:
+                    got3 = b3.is_pressed()
+                    hist.append("P")
+                    if got3 != (1 if level else 0):
+                        problems.append(("button-value", f"is_pressed() returned {got3} after history {hist}"))
+                    if level and not prev3:
+                        e3 += 1
+                    prev3 = level
+            if clicks.count(3) != e3:
+                problems.append(("button-edges", f"Button(set_pressed) fired {clicks.count(3)} clicks for {e3} rising edges of the sampled level in history {hist}"))
             if len(log) < 2:
                 log.append(f"button seq={seq[:8]} clicks={edges}")
         elif which < 0.6:
